@@ -91,7 +91,13 @@ def conclude(mod, tier, reports, problems, insitu, wall):
     if len(hashes) < 2:
         unmet.append(f"distinct_nontrivial={len(hashes)} < 2")
 
-    # replay files
+    # replay files (stale ones of earlier runs of the same check/tier/seed are removed first)
+    import glob
+    for old in glob.glob(os.path.join(REPLAY, f"{prop}-{tier}-{seed}-*.json")):
+        try:
+            os.remove(old)
+        except OSError:
+            pass
     replay_paths = []
     for k, v in enumerate(violations[:5]):
         p = os.path.join(REPLAY, f"{prop}-{tier}-{seed}-{k}.json")
